@@ -27,7 +27,7 @@ fn variant(i: usize) -> Variant {
 const USER_PW: &[&str] = &["u", "empty", "32-bytes", "40-bytes", "non-ascii"];
 const OWNER_PW: &[&str] = &["o", "same-as-user", "33-bytes"];
 const PERMS: &[&str] = &["-4", "-3904", "0"];
-const ID0: &[&str] = &["16-bytes", "1-byte"];
+const ID0: &[&str] = &["16-bytes", "1-byte", "empty", "40-bytes", "binary-with-delimiters"];
 const ENCMETA: &[&str] = &["true", "false"];
 const ENCPLACE: &[&str] = &["indirect", "direct-in-trailer"];
 const OBJNR: &[&str] = &["4", "255", "256", "65536", "999990"];
@@ -108,7 +108,13 @@ fn build_with(ch: &mut Chooser, sweep: Option<(usize, usize)>) -> Built {
         opw = format!("owner-{}", k * 7 + 1).into_bytes();
     }
     let p: i32 = [-4, -3904, 0][pi];
-    let id0: Vec<u8> = if idi == 0 { b"\x01\x02\x03\x04\x05\x06\x07\x08\x09\x0a\x0b\x0c\x0d\x0e\x0f\x10".to_vec() } else { vec![0x7f] };
+    let id0: Vec<u8> = match idi {
+        0 => b"\x01\x02\x03\x04\x05\x06\x07\x08\x09\x0a\x0b\x0c\x0d\x0e\x0f\x10".to_vec(),
+        1 => vec![0x7f],
+        2 => vec![],
+        3 => (0..40u8).map(|i| i.wrapping_mul(37).wrapping_add(3)).collect(),
+        _ => b"(\\)\r\n\x00<>\xff%".to_vec(),
+    };
     let sec = Security::new(v, &upw, &opw, p, &id0, em);
     let plain: Vec<u8> = (0..plen).map(|i| [b'(', b'A', 0, 0xff, b'\\', b')', b'\r', b'z'][i % 8]).collect();
     let meta_plain = b"<x:xmpmeta>plain metadata</x:xmpmeta>".to_vec();
@@ -362,7 +368,7 @@ pub fn run(tier: Tier, _seed: u64, tally: &mut Tally) -> CheckMeta {
     CheckMeta {
         prop: "C06",
         level: "model_checking",
-        rule: format!("all 17 handler variants (R2; R3 at every key length 40..128; R4 with /V2 and /AESV2; R5; R6) as a free dimension x <= {} deviations among user password (5), owner password (3), /P (3), /ID[0] (2), EncryptMetadata (2), /Encrypt direct or indirect, object number (5, up to 999990), generation (0, 1, 65535), plaintext length (0, 1, 15, 16, 17, 32, 33), string spelling, stream filter, xref format with a compressed string; every document is produced by the independent encryptor, opened with the user and with the owner password (every string, stream, metadata stream and the /Encrypt dictionary's own strings compared with the plaintext) and with up to four wrong passwords (must be InvalidPassword). Password sweep: {} key-derivation variants x {} user/owner password pairs (everything else default), since the revision 5/6 hashes run a password-dependent number of rounds. Distinct by file hash x password.", bound, PW_VARIANTS.len(), N_PASSWORDS),
+        rule: format!("all 17 handler variants (R2; R3 at every key length 40..128; R4 with /V2 and /AESV2; R5; R6) as a free dimension x <= {} deviations among user password (5), owner password (3), /P (3), /ID[0] (5), EncryptMetadata (2), /Encrypt direct or indirect, object number (5, up to 999990), generation (0, 1, 65535), plaintext length (0, 1, 15, 16, 17, 32, 33), string spelling, stream filter, xref format with a compressed string; every document is produced by the independent encryptor, opened with the user and with the owner password (every string, stream, metadata stream and the /Encrypt dictionary's own strings compared with the plaintext) and with up to four wrong passwords (must be InvalidPassword). Password sweep: {} key-derivation variants x {} user/owner password pairs (everything else default), since the revision 5/6 hashes run a password-dependent number of rounds. Distinct by file hash x password.", bound, PW_VARIANTS.len(), N_PASSWORDS),
         assumptions: vec!["the encryptor's key derivation is validated at start-up against the ten third-party encrypted fixtures in files/".into(), "public-key handlers, /StrF != /StmF and named /Crypt filters are outside the property".into()],
         exhaustive: true,
         bounds: json!({"deviations": bound}),
